@@ -4,7 +4,6 @@ import (
 	"github.com/bokysan/socketace/v2/internal/util/enc"
 	log "github.com/sirupsen/logrus"
 	"golang.org/x/net/dns/dnsmessage"
-	"math"
 )
 
 const (
@@ -35,16 +34,16 @@ type UpstreamConfig struct {
 // GetLongestDataString returns the longest data string available, when all dots and domain are included in the calculation
 func GetLongestDataString(domain string) int {
 
-	// Available space is maximum query length
-	space := HostnameMaxLen
+	// Available space is the longest name PrepareHostname accepts
+	space := HostnameMaxLen - 2
 	// minus domain length minus dot before and after domain
 	space = space - len(domain) - 2
 
-	// minus command len
-	space = space - 1
+	// minus all dots that need to be inserted (Dotify adds one after every 57 characters)
+	space = space - (space+57)/58
 
-	// minus all dots that need to be inserted
-	space = space - int(math.Ceil(float64(space)/float64(LabelMaxlen)))
+	// minus the two order characters which precede the data in a CNAME
+	space = space - 2
 
 	return space
 }
